@@ -202,11 +202,12 @@ func (w *world) enabled(m *simMenu, cnt simCounters) []simEvent {
 		// replication drivers
 		for _, id := range sortedDriverIDs(n.drivers) {
 			d := n.drivers[id]
+			// updates a stream handed over before it ended are still the leader's to consume
+			if len(d.updCh) > 0 && r.state == Leader && r.ldr.replUpdateCh != nil && (d.live() || r.ldr.startIndex == d.repl.ldrStartIndex) {
+				add(simEvent{K: "LU", N: n.idx, F: id})
+			}
 			if !d.live() {
 				continue
-			}
-			if len(d.updCh) > 0 && r.state == Leader {
-				add(simEvent{K: "LU", N: n.idx, F: id})
 			}
 			if d.canConnect() && !(w.opt.EagerConnect && w.reachable(n.idx, int(id-1))) {
 				add(simEvent{K: "RC", N: n.idx, F: id})
